@@ -32,6 +32,8 @@ def one(name: str) -> dict:
     d = V / 'seeded' / name
     meta = json.loads((d / 'meta.json').read_text())
     pid = meta['property']
+    if meta.get('neutralised'):
+        return {'name': name, 'property': pid, 'status': 'STALE (neutralised: ' + meta['neutralised'][:80] + ')'}
     checks = list(meta.get('checks', {pid: None}).keys()) or [pid]
     wt = SCRATCH / name
     out = {'name': name, 'property': pid}
